@@ -10,6 +10,30 @@ import (
 // input  (op baseLen off len cap nilflag)   op 0: BinaryToString  op 1: StringToBinary
 // output (ptrOff len cap contentEqual appendKeptOriginal appendContentOK)
 //   ptrOff = data pointer of the result minus data pointer of the base, -1 when len == 0
+var c20Kept [][]byte
+
+//go:noinline
+func c20StackKey(id byte, n int) []byte {
+	var raw [24]byte
+	for i := range raw {
+		raw[i] = id + byte(i)
+	}
+	s := string(raw[:n])
+	return unsafex.StringToBinary(s)
+}
+
+//go:noinline
+func c20Churn(depth int, fill byte) byte {
+	var pad [256]byte
+	for i := range pad {
+		pad[i] = fill
+	}
+	if depth == 0 {
+		return pad[17]
+	}
+	return pad[depth%len(pad)] ^ c20Churn(depth-1, fill)
+}
+
 func init() {
 	register("C20", &Prop{
 		Gen: func(g *Gen) {
@@ -127,6 +151,23 @@ func init() {
 				po = int(uintptr(unsafe.Pointer(&b[0])) - uintptr(unsafe.Pointer(unsafe.StringData(bs))))
 			}
 			contentEq := eq(b, want)
+			if nilf == 0 && ln >= 1 && ln <= 24 {
+				// second probe for short strings: the string is built at run time in the producing
+				// function and ONLY passed to the conversion; the result outlives that function and
+				// must keep the bytes alive (the conversion's result aliases its argument — a
+				// compiler that is not told so may keep the string in a dead stack frame)
+				k := c20StackKey(byte(off), ln)
+				c20Kept = append(c20Kept[:0], k)
+				c20Churn(8, 0xEE)
+				for i := range k {
+					if k[i] != byte(off)+byte(i) {
+						contentEq = false
+					}
+				}
+				if len(k) != ln || cap(k) != ln {
+					contentEq = false
+				}
+			}
 			lb, cb := len(b), cap(b)
 			// appending must never write into the string's memory
 			b2 := append(b, 0xAB)
